@@ -536,3 +536,25 @@ fire("C15", "splice-data-shifted", "R15.4", E(PP, "remove_node", "              
 fire("C15", "removed-row-kept", "R15.4", E(PP, "remove_node", "            adj.rows[i] = []\n            adj.data[i] = []\n", "            adj.data[i] = []\n"), "the removed node keeps its successor indices", allow_error=True)
 silent("C15", "transpose-method", E(TREE, "sequence_tree_skip_grams", '        global_counts = global_counts.T\n', '        global_counts = global_counts.transpose()\n'), "transpose spelled as a method")
 silent("C15", "symmetric-assignment", E(TREE, "sequence_tree_skip_grams", "        global_counts += global_counts.T\n", "        global_counts = global_counts.T + global_counts\n"), "sum written as an assignment, operands commuted")
+
+# --- C20: bookkeeping clauses of the histogram / KDE vectorizers
+KDEF = "vectorizers/kde_vectorizer.py"
+fire("C20", "left-outlier-overlaps", "R20.1", E(VEC, "add_outier_bins", "left_outlier = pd.Interval(left=absolute_range[0], right=interval_list[0].left)", "left_outlier = pd.Interval(left=absolute_range[0], right=interval_list[0].right)"),
+     "the lower outlier bin overlaps the first learned bin")
+fire("C20", "right-outlier-gap", "R20.1", E(VEC, "add_outier_bins", "            left=interval_list[last].right, right=absolute_range[1]", "            left=interval_list[last].left, right=absolute_range[1]"),
+     "the upper outlier bin starts at the last bin's left edge")
+fire("C20", "outlier-bin-appended", "R20.1", E(VEC, "add_outier_bins", "        interval_list.insert(0, left_outlier)", "        interval_list.append(left_outlier)"),
+     "bins no longer increasing")
+fire("C20", "widen-loses-inner-edge", "R20.1", E(VEC, "expand_boundaries", "            left=absolute_range[0], right=interval_list[0].right", "            left=absolute_range[0], right=interval_list[0].left"),
+     "the widened first bin ends where it used to start: a gap")
+fire("C20", "outlier-guard-flipped", "R20.1", E(VEC, "add_outier_bins", "    if interval_list[0].left > absolute_range[0]:", "    if interval_list[0].left < absolute_range[0]:"),
+     "outlier bin added exactly when it is not needed")
+fire("C20", "histogram-row-from-wrong-sequence", "R20.2", E(VEC, "HistogramVectorizer.transform", "            result[i, :] = self._vector_transform(seq).values", "            result[i, :] = self._vector_transform(X[0]).values"),
+     "every row computed from the first sequence")
+fire("C20", "kde-bandwidth-unfitted", "R20.3", E(KDEF, "KDEVectorizer.transform", "KernelDensity(bandwidth=self.bandwidth_, kernel=self.kernel)", "KernelDensity(bandwidth=self.bandwidth, kernel=self.kernel)"),
+     "the constructor parameter (possibly None) instead of the fitted bandwidth")
+silent("C20", "kde-hoisted-estimator", [E(KDEF, "KDEVectorizer.transform", "        for i, sample in enumerate(X):\n            kde = KernelDensity(bandwidth=self.bandwidth_, kernel=self.kernel)\n", "        kde = KernelDensity(bandwidth=self.bandwidth_, kernel=self.kernel)\n        for i, sample in enumerate(X):\n")],
+     "one estimator object re-fitted per row: fit() discards the previous sample, behaviour-preserving")
+silent("C20", "outlier-guard-mirrored", E(VEC, "add_outier_bins", "    if interval_list[0].left > absolute_range[0]:", "    if absolute_range[0] < interval_list[0].left:"), "same test the other way round")
+fire("C20", "kde-fit-on-all", "R20.3", E(KDEF, "KDEVectorizer.transform", "            kde.fit(sample[:, None])", "            kde.fit(np.hstack(X)[:, None])"),
+     "every row's density fitted on the whole batch")
